@@ -57,6 +57,7 @@ func fixtureKeyEntries() []string {
 		keyExpired+"?read=admin&write=admin&expires=1999-01-01T00:00:00Z",
 		keyShort+"?read=user&write=user",
 		"?read=admin&write=admin", // no key at all
+		" ?read=admin&write=admin", // a blank is a key like any other; it is not the empty key
 		keyBadPerm+"?read=root&write=admin",
 		keyBadExp+"?read=admin&write=admin&expires=tomorrow",
 	)
@@ -146,6 +147,7 @@ func (w *world) newFixture(t fataler) *fixture {
 	add(cred{name: "basic-unknown", class: "key_unknown", authz: basic("nobody", "nothing")})
 	add(cred{name: "bearer-short-known", class: "key_bearer_valid", authz: "Bearer " + keyShort})
 	add(cred{name: "basic-short-known", class: "key_basic_valid", authz: basic("a", "b")})
+	add(cred{name: "basic-blank-known", class: "key_basic_valid", authz: basic(" ", "")})
 	if !stats.Excl("c12.short_unknown_key") {
 		add(cred{name: "bearer-short-3", class: "key_short_unknown", authz: "Bearer xyz"})
 		add(cred{name: "bearer-short-1", class: "key_short_unknown", authz: "Bearer x"})
